@@ -43,7 +43,8 @@ install(prog, libfoo, baz, qux, hdrs, hdrs2)
 install(generic_file('data/d1'), directory=Path('share/kitchen', InstallRoot.datadir))
 install(man_page('man/k.1', compress=False))
 pkg_config('kitchen', version='1.2', includes=[hdrs, hdrs2, hdrs3], libs=[libfoo, baz, qux, stat],
-           requires=['zlib >= 1.0', 'libpng'], requires_private=['bzip2'])
+           # (the same dependency constrained twice, with equal versions spelt differently)
+           requires=['zlib >= 1.0', 'libpng'], requires_private=['bzip2', 'zlib >= 1.0.0', 'libpng >= 1'])
 extra_dist(files=['README'], dirs=['man'])
 submodule('sub')
 for name in sorted(set(['o3', 'o1', 'o2'])):
